@@ -133,6 +133,8 @@ def classify_c16(what, cfg, phase, exc):
   msg = str(exc)
   if isinstance(exc, ValueError) and "Circular monotonicity constraints" in msg and phase == "run":
     return "KF-C16-a"
+  if what == "premade" and isinstance(exc, ValueError) and "Clamping is not implemented for non monotonic functions" in msg and phase == "run":
+    return "KF-C16-b"          # the same accepted-then-raises PWL configuration, built by a premade model from a FeatureConfig
   if what == "PWLCalibration":
     mono = cfg.get("monotonicity")
     if (isinstance(exc, ValueError) and "Clamping is not implemented for non monotonic functions" in msg and phase == "run"
